@@ -95,6 +95,11 @@ def requiredCoverage : List (String × String × String × List String) := [
   ("queue.DelayedPriorityQueue", "currentWindowCounter", "mutex", []),
   ("queue.DelayedPriorityQueue", "requestCounts", "mutex", []),
   ("queue.DelayedPriorityQueue", "queue", "mutex", []),
+  -- the locked section of Enqueue (window update, serve waiters, take a slot | reject | push) and the
+  -- roll-over pass are ONE critical section each (step granularity of Model/C10: `enq`, `roll`):
+  ("queue.DelayedPriorityQueue", "currentWindowCounter", "mutex", ["Enqueue", "process"]),
+  ("queue.DelayedPriorityQueue", "queue", "mutex", ["Enqueue", "process"]),
+  ("queue.DelayedPriorityQueue", "currentWindowEndTime", "mutex", ["Enqueue"]),
   ("config.TxnPoliciesAccessor", "txnVersions", "mutex", []),
   ("utils.MemoryCache", "cache", "mutex", []),
   -- removal (Del and every TTL sleeper) looks the entry up, subtracts its size and deletes it in ONE section:
